@@ -282,6 +282,7 @@ func checkC08(ctx *Ctx, r *Report) {
 	c09BoundAgreement(ctx, r)
 	inProgressRestored(ctx, r, []string{"internal/jennies/golang/validation.go"}, 1)
 	c01SiblingReplacements(ctx, r)
+	c08CueConstraintSiblings(ctx, r)
 }
 
 func checkC13(ctx *Ctx, r *Report) {
@@ -981,4 +982,60 @@ func inProgressRestored(ctx *Ctx, r *Report, files []string, floor int) {
 	})
 	r.Count("in-progress sets (inserted before a descent, deleted after)", n)
 	r.Floor("in-progress sets (inserted before a descent, deleted after)", floor)
+}
+
+// c08CueConstraintSiblings: the CUE front-end has one constraint extractor per scalar family (strings, numbers). A value
+// with a default (`T & bound | *d`) reaches them as a single expression carrying a default; an extractor that splits the
+// expression on `&` without first removing the default finds one part and returns no constraint. Sibling agreement: every
+// declare…Constraints function asks the value for its default and replaces the value by an operand of its expression
+// before extracting.
+func c08CueConstraintSiblings(ctx *Ctx, r *Report) {
+	p := ctx.Pkg("internal/simplecue")
+	if p == nil {
+		r.Undecided("anchor lost: internal/simplecue")
+		return
+	}
+	info := p.TypesInfo
+	n := 0
+	for _, file := range p.Syntax {
+		for _, d := range file.Decls {
+			fd, ok := d.(*ast.FuncDecl)
+			if !ok || fd.Body == nil || !strings.HasPrefix(fd.Name.Name, "declare") || !strings.HasSuffix(fd.Name.Name, "Constraints") {
+				continue
+			}
+			n++
+			var param types.Object
+			for _, f := range fd.Type.Params.List {
+				for _, nm := range f.Names {
+					if t := info.TypeOf(nm); t != nil && strings.HasSuffix(t.String(), "cue.Value") {
+						param = info.Defs[nm]
+					}
+				}
+			}
+			asksDefault, reassigns := false, false
+			ast.Inspect(fd.Body, func(m ast.Node) bool {
+				switch x := m.(type) {
+				case *ast.CallExpr:
+					if sel, ok := x.Fun.(*ast.SelectorExpr); ok && sel.Sel.Name == "Default" {
+						if id, ok := ast.Unparen(sel.X).(*ast.Ident); ok && objOf(info, id) == param {
+							asksDefault = true
+						}
+					}
+				case *ast.AssignStmt:
+					if x.Tok == token.ASSIGN {
+						for _, l := range x.Lhs {
+							if id, ok := l.(*ast.Ident); ok && objOf(info, id) == param {
+								reassigns = true
+							}
+						}
+					}
+				}
+				return true
+			})
+			r.Check(asksDefault && reassigns, "siblings/cue-constraints-default", "simplecue."+fd.Name.Name+" removes the default before extracting", fd.Pos(), "asks for the default and continues on an operand of the expression",
+				fmt.Sprintf("simplecue.%s extracts constraints from the value as it is: for `T & bound | *default` CUE hands over one expression with a default, the split on `&` finds a single part and the bound is dropped — the generated Validate() accepts what the schema forbids (the sibling extractor strips the default first)", fd.Name.Name))
+		}
+	}
+	r.Count("constraint extractors of the CUE front-end", n)
+	r.Floor("constraint extractors of the CUE front-end", 2)
 }
